@@ -2382,6 +2382,7 @@ def _rand_async_program_harness(prop, k, mac):
     runner = "block_on_tokio" if is_spawn else "futures::executor::block_on"
     b += "    let r: %s = %s(async move { %s.await });\n" % (rty, runner, prog)
     b += "    reference_mode();\n"
+    b += "    let exp_errs: std::cell::RefCell<Vec<u8>> = std::cell::RefCell::new(Vec::new());\n    let exp_errs_ref = &exp_errs;\n"
     b += "    let exp: %s = futures::executor::block_on(async move {\n" % rty
     b += "        use futures::{FutureExt, TryFutureExt};\n"
     for i in range(n):
@@ -2414,7 +2415,15 @@ def _rand_async_program_harness(prop, k, mac):
             else:
                 b += "        w%d = f%d.await;\n" % (i, i)
         else:
-            if is_try:
+            if is_try and is_spawn:
+                # tokio tasks finish in any order: WHICH failing branch of the earliest failing step is reported depends on
+                # the schedule (C05: "a branch that failed in the earliest failing step") - the reference collects them all
+                b += "        let %s = futures::join!(%s);\n" % (tup("q%d" % i for i in act), ", ".join(futs))
+                b += "        let errs: Vec<u8> = [%s].iter().filter_map(|q: &Result<u8, u8>| q.err()).collect();\n" % ", ".join("q%d" % i for i in act)
+                b += "        if !errs.is_empty() { exp_errs_ref.borrow_mut().extend(errs.iter().copied()); return Err(errs[0]); }\n"
+                for i in act:
+                    b += "        w%d = q%d;\n" % (i, i)
+            elif is_try:
                 b += "        let %s = match futures::try_join!(%s) { Ok(t) => t, Err(e) => return Err(e) };\n" % (tup("t%d" % i for i in act), ", ".join(futs))
                 for i in act:
                     b += "        w%d = Ok(t%d);\n" % (i, i)
@@ -2427,7 +2436,11 @@ def _rand_async_program_harness(prop, k, mac):
         b += "        Ok(%s)\n    });\n" % (" ^ ".join("%s.rotate_left(%d)" % (vals[i], i) for i in range(n)) if handler else tup(vals))
     else:
         b += "        %s\n    });\n" % (" ^ ".join("w%d.rotate_left(%d)" % (i, i) for i in range(n)) if handler else tup("w%d" % i for i in range(n)))
-    b += "    assert!(r == exp, \"rand_diff(async): value differs from the staged reference\");\n"
+    if is_try and is_spawn:
+        b += "    let same = match (&r, &exp) { (Err(e), Err(x)) => e == x || exp_errs.borrow().contains(e), _ => r == exp };\n"
+        b += "    assert!(same, \"rand_diff(async): value differs from the staged reference\");\n"
+    else:
+        b += "    assert!(r == exp, \"rand_diff(async): value differs from the staged reference\");\n"
     if not is_spawn:
         b += "    assert!(traces_same_multiset(), \"rand_diff(async): the set of evaluated expressions differs from the staged reference\");\n"
     hn = "%s_rand_%s_%d" % (prop.lower(), mac, k)
